@@ -109,6 +109,9 @@ func (d *While) Evaluation(
 		}
 
 		if isParsingExpr && nextT.IsNewLineIdentifier() {
+			// 'stmt while cond': the line end belongs to the statement loop,
+			// which ends the expression there
+			p.Unget()
 			break
 		}
 
